@@ -14,7 +14,7 @@ HISTUC = {"name": "histuc", "corpus": True}
 RC = {"name": "rc", "corpus": True}
 HISTW = {"name": "histw", "corpus": True}
 INIT = {"name": "init", "corpus": True}
-APIBM = {"name": "apibm", "model": False}
+APIBM = {"name": "apibm", "corpus": True}
 # a second, independently seeded pass of the waiting-biased histories (rare estimate shapes are a matter of density)
 HISTW2 = {"name": "histw", "label": "gen2", "env": {"VERIF_SEED_ADD": "1"}}
 HIST2 = {"name": "hist", "label": "gen2", "env": {"VERIF_SEED_ADD": "1"}}
@@ -215,7 +215,7 @@ PROPS = {
             "technique": "Lean 4 proof (enumeration completeness, min-fold) + exhaustive-enumeration differential on the real code",
             "design_ref": "DESIGN.md §5 C10",
         },
-        "lean_props": ["C10", "C10S"],
+        "lean_props": ["C10", "C10S", "C10D"],
         "streams": [HIST, HIST2, APIBM],
     },
     "C11": {
